@@ -6,6 +6,11 @@ def indent(level):
 
 
 def ensure_select_keyword_order(select, operation):
+    from mindsdb_sql.parser.ast.select.union import CombiningQuery
+    if isinstance(select, CombiningQuery):
+        # (SELECT ... UNION SELECT ...) <operation>: the combining query has no such clause
+        raise ParsingException(f"{operation} is not supported after {select.operation} in parentheses")
+
     op_to_attr = {
         'FROM': select.from_table,
         'WHERE': select.where,
